@@ -87,12 +87,17 @@ def load_program(mirs):
     return prog
 
 
+# scratch directories of explorations in progress (removed by the driver when it is told to stop)
+LIVE_OUTDIRS = []
+
+
 def run_harness(prog, fn_name, params=(), opts=None, workers=None, budget_s=600):
     """Explore all paths of harness function `fn_name` (in crate verif_harness). Returns list of records."""
     f = prog.funcs.get("verif_harness::" + fn_name)
     if f is None:
         raise KeyError("harness function %s not found" % fn_name)
     outdir = tempfile.mkdtemp(prefix="mirsym-", dir="/dev/shm" if os.path.isdir("/dev/shm") else None)
+    LIVE_OUTDIRS.append(outdir)
     o = dict(opts or {})
     o["params"] = list(params)
     o["deadline"] = time.time() + budget_s
@@ -122,6 +127,8 @@ def run_harness(prog, fn_name, params=(), opts=None, workers=None, budget_s=600)
             if line:
                 recs.append(json.loads(line))
     shutil.rmtree(outdir, ignore_errors=True)
+    if outdir in LIVE_OUTDIRS:
+        LIVE_OUTDIRS.remove(outdir)
     if st != 0:
         recs.append({"status": "internal_error", "err": "explorer root exited with status %r" % st})
     return recs, time.time() - t0
